@@ -6,7 +6,7 @@ namespace Fastrace
 /-- operations that neither push nor pop a thread-local guard -/
 def isPlain : Op → Bool
   | .scope _ | .localEnter _ | .collectorStart | .close | .collect _ | .exit | .adPoll _ _ | .adEnd _ _
-  | .closeUnder | .collectUnder _ => false
+  | .closeUnder | .collectUnder _ | .unwind => false
   | _ => true
 
 theorem Stack.addEvent_ext (st : Stack) (c : Ctr) (n : String) (p : Option Props) :
@@ -107,6 +107,7 @@ theorem exec_plain_pres (s : Sys) (t : Nat) (op : Op) (hp : isPlain op = true) (
   | adEnd a r => simp [isPlain] at hp
   | closeUnder => simp [isPlain] at hp
   | collectUnder x => simp [isPlain] at hp
+  | unwind => simp [isPlain] at hp
   | adNew a kind arg =>
     simp only [exec]
     cases kind with
